@@ -538,7 +538,7 @@ func c15(c *Ctx) {
 				return false
 			}
 			_, p, ok := flow.AccessPathC(x)
-			if !ok || strings.Contains(p, ".") || p == "w" || p == "r" || p == "t" {
+			if !ok || strings.Contains(p, ".") {
 				return false
 			}
 			ld, isLoad := x.(*ssa.UnOp)
@@ -557,7 +557,7 @@ func c15(c *Ctx) {
 		var clean []ssa.CallInstruction
 		for _, x := range cfgx.Calls(cl, nil) {
 			if x.Common().IsInvoke() && x.Common().Method.Name() == "Close" {
-				if _, p, _ := flow.AccessPathC(x.Common().Value); p == "w" {
+				if isWriterField(x.Common().Value) {
 					clean = append(clean, x)
 				}
 			}
@@ -571,7 +571,7 @@ func c15(c *Ctx) {
 					continue
 				}
 				iface, isIface := ta.AssertedType.Underlying().(*types.Interface)
-				if _, p, _ := flow.AccessPathC(ta.X); p != "w" || !isIface {
+				if !isWriterField(ta.X) || !isIface {
 					continue
 				}
 				impl := false
@@ -1068,4 +1068,35 @@ func accessorsOwnField(c *Ctx, pkgPath string, typeNames ...string) {
 			paths[m.Name()][tn] = strings.Join(chain, ".")
 		}
 	}
+}
+
+// isWriterField: v is read from a field of type io.Writer (the writer a tee feeds), whatever the field is called.
+func isWriterField(v ssa.Value) bool {
+	if mi, ok := v.(*ssa.MakeInterface); ok {
+		v = mi.X
+	}
+	for i := 0; i < 4; i++ {
+		switch x := v.(type) {
+		case *ssa.ChangeInterface:
+			v = x.X
+		case *ssa.Extract:
+			v = x.Tuple
+		case *ssa.TypeAssert:
+			v = x.X
+		case *ssa.MakeInterface:
+			v = x.X
+		}
+	}
+	ld, ok := v.(*ssa.UnOp)
+	if !ok {
+		return false
+	}
+	fa, ok := ld.X.(*ssa.FieldAddr)
+	if !ok {
+		return false
+	}
+	if fieldName(fa.X.Type(), fa.Field) == "" {
+		return false
+	}
+	return types.NewMethodSet(ld.Type()).Lookup(nil, "Write") != nil // an io.Writer / io.WriteCloser field
 }
